@@ -15,8 +15,9 @@ from stepup.core.enums import StepState
 PID = "C12"
 LEVEL = "proof"
 ASSUMPTIONS = [
-    "the job limit (number of commands in flight <= --jobs) and the overlap of real executions in time are decided "
-    "on simulated builds, not in the kernel model",
+    "the job limit (number of commands in flight <= --jobs), the overlap of executions in time and the hold blocks "
+    "of whole builds are decided by the oracle on simulated builds (real director code, logical clock of the "
+    "simulated event loop), not in the kernel model",
     "findings F7/F9 (a detached step that is still RUNNING is recycled) are in scope of the kernel oracle",
 ]
 SCOPES = {"scheduler", "completion", "declarations"}
@@ -57,9 +58,169 @@ async def correspond(ctx):
     await kcorr.run(ctx, SCOPES, observers=[Observer], salt="c12")
 
 
+def _peak(windows):
+    """Largest weight in flight at once over half-open logical-time windows [start, end)."""
+    events = []
+    for start, end, weight in windows:
+        events.append((start, 1, weight))
+        events.append((end, 0, -weight))  # an end at time t frees its units before a start at t
+    events.sort()
+    cur = peak = 0
+    for _, _, w in events:
+        cur += w
+        peak = max(peak, cur)
+    return peak
+
+
+def gen_hold_project(r):
+    """A plan that declares steps inside (nested) hold blocks and keeps working before releasing."""
+    from simdirector import A, Project
+
+    actions = [A.static("src/a.txt")]
+    depth = 0
+    held, free = [], []
+    nstep = r.randint(2, 5)
+    for i in range(nstep):
+        roll = r.random()
+        if roll < 0.45 and depth < 2:
+            actions.append(A.hold())
+            depth += 1
+        cpu = r.choice([0, 1, 2])
+        res = {"cpu": cpu} if cpu else {}
+        actions.append(A.step(f"w{i}", inp=["src/a.txt"], out=[f"out/w{i}.txt"], resources=res))
+        (held if depth else free).append(f"w{i}")
+        for _ in range(r.randint(0, 2)):
+            actions.append(A.nop())
+        if depth and r.random() < 0.4:
+            actions.append(A.release())
+            depth -= 1
+    for _ in range(r.randint(0, 3)):
+        actions.append(A.nop())
+    while depth:
+        actions.append(A.release())
+        depth -= 1
+        actions.append(A.nop())
+    scripts = {"./plan.py": actions}
+    if r.random() < 0.3:
+        # a held step that itself declares a step: the grandchild is held back too
+        scripts["w0"] = [A.read_declared(), A.step("sub0", inp=["src/a.txt"], out=["out/sub0.txt"]),
+                         A.write_declared()]
+    return Project(scripts=scripts, files={"src/a.txt": "A\n"}), held
+
+
+def hold_windows(run, script):
+    """For every step the plan declared: logical times of its declaration and of the moment the
+    plan's outermost hold was released (None when it was declared outside a hold block)."""
+    depth = 0
+    pending, out = [], {}
+    for idx, t, name, _summary in run.actions:
+        if name == "hold":
+            depth += 1
+        elif name == "release":
+            depth -= 1
+            if depth == 0:
+                for label in pending:
+                    out[label] = t
+                pending = []
+        elif name == "step":
+            label = script[idx][1]["cmd"] if idx < len(script) and script[idx][0] == "step" else None
+            if depth and label:
+                pending.append(label)
+    return out
+
+
+def build_case(ctx, index, *, salt="build"):
+    import copy
+
+    import buildkit
+    import projgen
+    from simdirector import RandomSchedule, SimDirector
+
+    r = ctx.rng(salt, index)
+    found = []
+    family = "hold" if index % 3 == 2 else "projgen"
+    if family == "projgen":
+        model = projgen.gen_model(r, fail_prob=0.1 if r.random() < 0.3 else 0.0)
+        project = projgen.render(model)
+        resources = model.resources
+    else:
+        project, _held = gen_hold_project(r)
+        resources = "cpu:" + str(r.choice([1, 2, 3]))
+    njob = r.choice([1, 1, 2, 2, 3, 4])
+    limit = {}
+    if resources:
+        name, _, units = resources.partition(":")
+        # also fewer units than some step needs: that step must then never run
+        units = max(0, int(units) - r.choice([0, 0, 1, 2]))
+        limit = {name: units}
+        resources = f"{name}:{units}"
+    with SimDirector(copy.deepcopy(project), seed=r.randrange(1 << 30)) as sim:
+        res = sim.build(njob=njob, resources=resources, schedule=RandomSchedule(r.randrange(1 << 30)))
+    info = {"family": family, "njob": njob, "resources": resources, "status": res.status,
+            "returncode": repr(res.returncode)}
+    if res.status not in ("done",):
+        found.append((f"director-{res.status}", f"the build ended with status {res.status}: {(res.error or '')[-200:]}", info))
+        return found, info, project, res
+    inf = 1 << 60
+    cmd = [(x.start, x.end if x.end is not None else inf, 1) for x in res.runs]
+    peak = _peak(cmd)
+    info["peak_commands"] = peak
+    if peak > njob:
+        found.append(("job-limit-exceeded", f"{peak} commands ran at once with --jobs {njob}",
+                      {**info, "runs": [(x.label, x.start, x.end) for x in res.runs]}))
+    # RUN jobs hold their resources from the dispatch transaction to the retirement of the job
+    jobs = {j.job_i: j for j in res.jobs}
+    names = {n for x in res.runs for n in x.resources}
+    for name in sorted(names):
+        held = []
+        for x in res.runs:
+            units = x.resources.get(name, 0)
+            if not units:
+                continue
+            j = jobs.get(x.job_i)
+            start = j.dispatched if j is not None else x.start
+            end = (j.completed if j is not None and j.completed is not None else (x.end if x.end is not None else inf))
+            held.append((min(start, x.start), max(end, x.end or 0), units))
+            if name not in limit:
+                found.append(("undefined-resource-ran", f"'{x.label}' ran although it requires the undefined resource {name}",
+                              {**info, "step": x.label}))
+        if name in limit:
+            peak = _peak(held)
+            info[f"peak_{name}"] = peak
+            if peak > limit[name]:
+                found.append(("resource-limit-exceeded",
+                              f"{peak} units of {name} in use at once with {limit[name]} available",
+                              {**info, "windows": held}))
+    # hold blocks
+    for plan in [x for x in res.runs if x.label == "./plan.py"]:
+        script = project.scripts.get("./plan.py")
+        if not isinstance(script, list):
+            continue
+        released = hold_windows(plan, script)
+        for x in res.runs:
+            label = x.label
+            t = released.get(label)
+            if t is not None:
+                info["held_steps"] = info.get("held_steps", 0) + 1
+                if x.start < t:
+                    found.append(("command-started-under-hold",
+                                  f"'{label}' started at t={x.start}, its declaring step released the outermost hold at t={t}",
+                                  {**info, "step": label, "start": x.start, "release": t,
+                                   "plan_actions": [(a[1], a[2], str(a[3])[:60]) for a in plan.actions]}))
+            if x.creator and x.creator.startswith("step:") and x.creator[5:] in released:
+                # a step declared by a held step inherits the hold of its creator chain
+                if x.start < released[x.creator[5:]]:
+                    found.append(("command-started-under-hold",
+                                  f"'{label}' (declared by the held step {x.creator[5:]}) started before the release",
+                                  {**info, "step": label, "start": x.start, "release": released[x.creator[5:]]}))
+    return found, info, project, res
+
+
 async def search(ctx):
+    import asyncio
     import contextlib
 
+    import buildkit
     import corr_kernel
 
     for i in range(ctx.budget(60, 1500)):
@@ -68,9 +229,34 @@ async def search(ctx):
         run_.observers = [Observer(ctx, run_)]
         async with contextlib.AsyncExitStack() as cm:
             await run_.generate(cm, 70)
+    st = ctx.stats
+    for i in range(ctx.budget(45, 1500)):
+        found, info, project, res = await asyncio.to_thread(build_case, ctx, i)
+        st.programs += 1
+        st.case(("build", i), nontrivial=info.get("peak_commands", 0) > 1)
+        st.count("builds:" + info["family"])
+        st.count("builds-with-commands-in-parallel", int(info.get("peak_commands", 0) > 1))
+        st.count("commands-executed", len(res.runs))
+        st.count("held-steps-executed", info.get("held_steps", 0))
+        st.count("builds-at-job-limit", int(info.get("peak_commands", 0) == info["njob"]))
+        for sig, what, extra in found:
+            ctx.finding(Finding(PID, sig, what, {
+                "case": {"verif_seed": ctx.seed, "salt": "build", "index": i},
+                "project": buildkit.jsonable_project(project), **extra,
+                "how": "props/c12.py build_case(ctx, index): one simulated build (real director code) with the given "
+                       "--jobs and resources; windows are logical times of the simulated event loop"}))
 
 
 async def replay(ctx, detail):
     sig = detail.get("signature", "")
+    case = detail.get("detail", detail).get("case")
+    if case:
+        import asyncio
+        import os
+
+        os.environ["VERIF_SEED"] = str(case.get("verif_seed", 0))
+        ctx.seed = int(case.get("verif_seed", 0))
+        found, info, _, _ = await asyncio.to_thread(build_case, ctx, int(case["index"]), salt=case.get("salt", "build"))
+        return {"reproduced": any(s == sig for s, _, _ in found), "signature": sig, "info": info}
     await search(ctx)
     return {"reproduced": any(f.signature == sig for f in ctx.findings), "signature": sig}
